@@ -33,6 +33,11 @@ var keyKinds = []keyKind{
 	{name: "struct_spread", typ: "SP", mk: `SP{a: int(u32(i) * 2654435761), b: i64(u64(i) * 11400714819323198485)}`, idx: "r = int(u32(k.a) * 244002641)",
 		decls: "type SP :struct {\n\ta: int\n\tb: i64\n}\n"},
 	{name: "string", typ: "string", mk: `"k" + itoa(i*13)`, idx: "r = atoi(k[1:]) / 13"},
+	// strings that are not valid UTF-8 are strings too
+	{name: "string_bytes", typ: "string", mk: "string([]byte{byte(0xf0 + i%16), byte(i / 16), 'k'})", idx: "r = int(k[0]-0xf0) + int(k[1])*16"},
+	// distinct pointers into ONE allocation (elements of one slice)
+	{name: "pointer_elem", typ: "*PK", mk: "&ptrCells[i]", idx: "r = k.id", needsP: true,
+		decls: "type PK :struct {\n\tid: int\n\tpad: string\n}\nglobal ptrPool: []*PK\nglobal ptrCells: []PK\n"},
 	{name: "f64", typ: "f64", mk: "fkey(i)", idx: "r = fidx(k)",
 		decls: `
 func fkey(i: int) => f64 {
@@ -172,6 +177,9 @@ func setup() {
 `, pool)
 	if k.needsP {
 		fmt.Fprintf(&b, "\tptrPool = make([]*PK, %d)\n\tfor i := range ptrPool {\n\t\tptrPool[i] = &PK{id: i, pad: itoa(i)}\n\t}\n", pool)
+		if strings.Contains(k.decls, "ptrCells") {
+			fmt.Fprintf(&b, "\tptrCells = make([]PK, %d)\n\tfor i := range ptrCells {\n\t\tptrCells[i].id = i\n\t}\n", pool)
+		}
 	}
 	fmt.Fprintf(&b, "\tfor i := 0; i < %d; i++ {\n\t\tms[i] = make(map[%s]%s)\n\t}\n}\n", slots, k.typ, v.typ)
 	fmt.Fprintf(&b, `
